@@ -75,6 +75,9 @@ def seekWritable (pts : List SeekPt) : Bool :=
   | [] => true
   | p :: ps => seekAscending (match p with | .defined s _ _ => some s | .placeholder => none) ps
 
+/-- the code `PictureType::to_writer` emits for the variant the reader maps code `t` to (table regenerated from the source) -/
+def pictureWriteCode (t : Nat) : Nat := ((pictureTypeWrite.find? (fun q => q.1 == t)).map (·.2)).getD t
+
 /-- body bytes as the writer produces them.  `.err` = the writer returns an error; `.panic` = one
     of its unwraps fails. -/
 def Block.body : Block → Res (List Nat)
@@ -98,7 +101,7 @@ def Block.body : Block → Res (List Nat)
   | .picture p =>
       if p.mime.length ≥ 2 ^ 32 || p.desc.length ≥ 2 ^ 32 then .error (.err "ExcessiveStringLength")
       else if p.data.length ≥ 2 ^ 32 then .error (.err "ExcessivePictureSize")
-      else .ok (beBytes 4 p.ptype ++ beBytes 4 p.mime.length ++ p.mime ++ beBytes 4 p.desc.length ++ p.desc
+      else .ok (beBytes 4 (pictureWriteCode p.ptype) ++ beBytes 4 p.mime.length ++ p.mime ++ beBytes 4 p.desc.length ++ p.desc
         ++ beBytes 4 p.width ++ beBytes 4 p.height ++ beBytes 4 p.depth ++ beBytes 4 p.colors ++ beBytes 4 p.data.length ++ p.data)
 
 /-- `MetadataBlock::bytes()`: `none` when the dry run fails or exceeds the 24-bit size -/
